@@ -27,6 +27,12 @@ func (s c14Shape) bits() uint { return uint(s.k()*s.k() + s.k()) }
 // c14Build constructs the network for graph code g: neuron i (0-based; hidden first,
 // then outputs) has node id i+2, the sensor has id 1.
 func c14Build(sh c14Shape, g uint64) (*network.Network, []*network.NNode) {
+	return c14BuildFlagged(sh, g, -1)
+}
+
+// c14BuildFlagged: flag = -1 no link is marked recurrent, -2 every link is, e >= 0 only
+// the e-th link (in construction order). The depth is a property of the paths, not of the flags.
+func c14BuildFlagged(sh c14Shape, g uint64, flag int) (*network.Network, []*network.NNode) {
 	k := sh.k()
 	sensor := network.NewSensorNode(1, false)
 	neurons := make([]*network.NNode, k)
@@ -44,16 +50,23 @@ func c14Build(sh c14Shape, g uint64) (*network.Network, []*network.NNode) {
 			outs = append(outs, neurons[i])
 		}
 	}
+	e := 0
+	mark := func(l *network.Link) {
+		if flag == -2 || flag == e {
+			l.IsRecurrent = true
+		}
+		e++
+	}
 	for i := 0; i < k; i++ {
 		for j := 0; j < k; j++ {
 			if g&(1<<uint(i*k+j)) != 0 {
-				neurons[j].ConnectFrom(neurons[i], 1.0)
+				mark(neurons[j].ConnectFrom(neurons[i], 1.0))
 			}
 		}
 	}
 	for j := 0; j < k; j++ {
 		if g&(1<<uint(k*k+j)) != 0 {
-			neurons[j].ConnectFrom(sensor, 1.0)
+			mark(neurons[j].ConnectFrom(sensor, 1.0))
 		}
 	}
 	return network.NewNetwork([]*network.NNode{sensor}, outs, all, 1), all
@@ -194,6 +207,37 @@ func c14Eval(sh c14Shape, g uint64) (fails [][4]interface{}, dag bool, queries i
 	if id := c14Marked(all); id != 0 {
 		fails = append(fails, [4]interface{}{"marks-left", fmt.Sprintf("node %d still marked after an uncapped query", id), 0, -1})
 	}
+	// the same graph with links flagged recurrent (all of them; each one alone): same depth
+	edges := 0
+	for b := g; b != 0; b &= b - 1 {
+		edges++
+	}
+	for flag := -2; flag < edges; flag++ {
+		if flag == -1 {
+			continue
+		}
+		fn, fall := c14BuildFlagged(sh, g, flag)
+		fr := c14Query(fn, 0)
+		queries++
+		if !isDag {
+			// cyclic: only termination and the range are demanded
+			if fr.other != "" || fr.capErr || fr.depth < 0 || fr.depth > nNodes {
+				fails = append(fails, [4]interface{}{"cyclic-range", fmt.Sprintf("depth (%d, capErr=%v %s) outside [0,%d] on a cyclic network with flagged links", fr.depth, fr.capErr, fr.other, nNodes), 0, -1})
+				break
+			}
+		} else if fr != u {
+			which := "every link"
+			if flag >= 0 {
+				which = fmt.Sprintf("link %d (construction order)", flag)
+			}
+			fails = append(fails, [4]interface{}{"recurrent-flag-changes-depth", fmt.Sprintf("with %s flagged recurrent the depth is (%d, capErr=%v %s), without flags %d", which, fr.depth, fr.capErr, fr.other, u.depth), 0, -1})
+			break
+		}
+		if id := c14Marked(fall); id != 0 {
+			fails = append(fails, [4]interface{}{"marks-left", fmt.Sprintf("node %d still marked after an uncapped query (flagged links)", id), 0, -1})
+			break
+		}
+	}
 	for c1 := 0; c1 <= nNodes+1; c1++ {
 		for c2 := 0; c2 <= nNodes+1; c2++ {
 			net, nodes := c14Build(sh, g)
@@ -225,7 +269,7 @@ func runC14(c *Ctx) {
 	if !c.Quick() {
 		shapes = []c14Shape{{2, 1}, {1, 2}, {3, 1}, {2, 2}}
 	}
-	c.Rule = fmt.Sprintf("one sensor + k neurons, shapes (hidden,outputs)=%v: ALL digraphs (every neuron->neuron edge incl. self-loops, every sensor->neuron edge); per graph every cap in {0..n+1} and every ordered pair of consecutive queries; oracle: DP longest path on DAGs, range on cyclic graphs, cap rule, second query == fresh query, no visited mark left; non-trivial = distinct graph", shapes)
+	c.Rule = fmt.Sprintf("one sensor + k neurons, shapes (hidden,outputs)=%v: ALL digraphs (every neuron->neuron edge incl. self-loops, every sensor->neuron edge); per graph every cap in {0..n+1} and every ordered pair of consecutive queries, and the uncapped query again with every link / each single link flagged recurrent (same depth required); oracle: DP longest path on DAGs, range on cyclic graphs, cap rule, second query == fresh query, no visited mark left; non-trivial = distinct graph", shapes)
 	const chunkBits = 10
 	type job struct {
 		sh     c14Shape
@@ -300,7 +344,7 @@ func runC14(c *Ctx) {
 	c.Extra["distinct_note"] = "distinct_nontrivial counts every 64th graph code (graphs are distinct by construction; graphs_enumerated is the full count)"
 	c.States = 0
 	c.Sample(map[string]interface{}{"shape": "2 hidden + 1 output", "graph": c14Edges(c14Shape{2, 1}, 0b001_000_100_010), "queries": "cap 1 then cap 0"})
-	c.Assume("sensors are interchangeable for depth, so one sensor is used; link recurrence flags do not influence the depth computation")
+	c.Assume("sensors are interchangeable for depth, so one sensor is used")
 }
 
 func replayC14(c *Ctx, rp *Replay) (bool, string) {
